@@ -9,6 +9,7 @@ package main
 import (
 	"fmt"
 	"strings"
+	"sync"
 	"time"
 
 	"verifharness/fb"
@@ -38,11 +39,16 @@ func genC07(ctx *Ctx) {
 	defer be.Shutdown()
 	be.BadKeyspaces["missing"] = &message.Invalid{ErrorMessage: "Keyspace 'missing' does not exist"}
 	be.BadKeyspaces["\"Missing\""] = &message.Invalid{ErrorMessage: "Keyspace 'Missing' does not exist"}
+	// USEs that fail without a CQL error: the backend answers later than the proxy's connect timeout, or with a RESULT
+	// that is not set_keyspace
+	be.SlowKeyspaces["slowks"] = 900 * time.Millisecond
+	be.OddKeyspaces["oddks"] = true
 	seq := 0
-	for round := 0; round < ctx.Scale(10, 150); round++ {
+	for round := 0; round < ctx.Scale(24, 300); round++ {
 		cfg := px.DefaultConfig(be)
 		cfg.MaxVersion = primitive.ProtocolVersionDse2
 		cfg.ReconnectPolicy = proxycore.NewReconnectPolicyWithDelays(time.Millisecond, 5*time.Millisecond)
+		cfg.ConnectTimeout = 400 * time.Millisecond
 		var env *px.Env
 		var err error
 		if env, err = px.StartProxy(be, cfg); err != nil {
@@ -78,16 +84,116 @@ func genC07(ctx *Ctx) {
 			compV = append(compV, hv.S(compSent))
 		}
 		var ops, obs []hv.V
+		request := func(i int) {
+			c := cs[i]
+			seq++
+			tok := fmt.Sprintf("s%dx%d", ctx.Seed%1000, seq)
+			_ = c.cl.Send(c.ver, 3, &message.Query{Query: "SELECT v FROM t WHERE k = 'tok:" + tok + "'", Options: &message.QueryOptions{}})
+			f, _ := c.cl.Next(10 * time.Second)
+			ops = append(ops, hv.L(hv.I(1), hv.I(int64(i)), hv.I(int64(c.ver))))
+			var rec *fb.Rec
+			for _, x := range be.Snapshot() {
+				if x.Token == tok {
+					xx := x
+					rec = &xx
+				}
+			}
+			if f == nil || rec == nil {
+				obs = append(obs, hv.L(hv.I(9)))
+			} else {
+				obs = append(obs, hv.L(hv.I(2), hv.S(rec.Keyspace), hv.I(int64(versionSeen(rec))), hv.S(rec.Compression)))
+			}
+		}
+		// Sessions created at the same instant: in every other round all clients send their first request together
+		// (no session exists yet for any of their version/compression pairs) while the backend answers STARTUP slowly;
+		// each request must still travel on connections of its own client's version and compression.
+		if round%2 == 1 && nc > 1 {
+			be.SetStartupDelay(120 * time.Millisecond)
+			var wg sync.WaitGroup
+			toks := make([]string, nc)
+			frames := make([]*px.Frame, nc)
+			for i := range cs {
+				seq++
+				toks[i] = fmt.Sprintf("s%dx%d", ctx.Seed%1000, seq)
+				wg.Add(1)
+				go func(i int) {
+					defer wg.Done()
+					_ = cs[i].cl.Send(cs[i].ver, 3, &message.Query{Query: "SELECT v FROM t WHERE k = 'tok:" + toks[i] + "'", Options: &message.QueryOptions{}})
+					frames[i], _ = cs[i].cl.Next(10 * time.Second)
+				}(i)
+			}
+			wg.Wait()
+			be.SetStartupDelay(0)
+			for i := range cs {
+				ops = append(ops, hv.L(hv.I(1), hv.I(int64(i)), hv.I(int64(cs[i].ver))))
+				var rec *fb.Rec
+				for _, x := range be.Snapshot() {
+					if x.Token == toks[i] {
+						xx := x
+						rec = &xx
+					}
+				}
+				if frames[i] == nil || rec == nil {
+					obs = append(obs, hv.L(hv.I(9)))
+				} else {
+					obs = append(obs, hv.L(hv.I(2), hv.S(rec.Keyspace), hv.I(int64(versionSeen(rec))), hv.S(rec.Compression)))
+				}
+			}
+			be.ResetLog()
+			ctx.Count("concurrent-first-requests")
+		}
+		// ... and in the other rounds all clients switch to one new keyspace together (the backend answers that USE
+		// slowly), then each sends a request
+		if round%2 == 0 && nc > 1 {
+			ks := fmt.Sprintf("cc%d_%d", ctx.Seed%1000, round)
+			be.SetSlowKeyspace(ks, 100*time.Millisecond)
+			var wg sync.WaitGroup
+			oks := make([]bool, nc)
+			for i := range cs {
+				wg.Add(1)
+				go func(i int) {
+					defer wg.Done()
+					_ = cs[i].cl.Send(cs[i].ver, 2, &message.Query{Query: "USE " + ks, Options: &message.QueryOptions{}})
+					f, _ := cs[i].cl.Next(10 * time.Second)
+					oks[i] = f != nil && f.Opcode == byte(primitive.OpCodeResult)
+				}(i)
+			}
+			wg.Wait()
+			for i := range cs {
+				ops = append(ops, hv.L(hv.I(0), hv.I(int64(i)), hv.S(ks), hv.Bool(true)))
+				if oks[i] {
+					obs = append(obs, hv.L(hv.I(0), hv.S(ks)))
+				} else {
+					obs = append(obs, hv.L(hv.I(1)))
+				}
+			}
+			be.ResetLog()
+			for i := range cs {
+				request(i)
+			}
+			be.ResetLog()
+			ctx.Count("concurrent-use-of-one-new-keyspace")
+		}
 		nops := 4 + r.Intn(16)
+		forced := -1 // after a USE that failed, the same client's next request shows which keyspace is in force
 		for k := 0; k < nops; k++ {
 			i := r.Intn(nc)
+			choice := r.Intn(8)
+			if forced >= 0 {
+				i, choice, forced = forced, 7, -1
+			}
 			c := cs[i]
-			switch r.Intn(8) {
+			switch choice {
 			case 0, 1, 2:
 				ks := hv.Pick(r, c07Keyspaces)
 				ok := true
-				if r.Intn(4) == 0 {
-					ks, ok = hv.Pick(r, []string{"missing", "\"Missing\""}), false
+				if r.Intn(3) == 0 {
+					ks, ok = hv.Pick(r, []string{"missing", "\"Missing\"", "slowks", "oddks"}), false
+					ctx.Count("failing-use:" + ks)
+					forced = i
+					if k == nops-1 {
+						nops++
+					}
 				}
 				_ = c.cl.Send(c.ver, 2, &message.Query{Query: hv.Pick(r, []string{"USE ", "use ", "Use  "}) + ks, Options: &message.QueryOptions{}})
 				f, _ := c.cl.Next(10 * time.Second)
